@@ -27,9 +27,14 @@ NAMES = 'abcde'
 LINE = re.compile(r'^(\S+)\s.*?<\w+ `([^`]*)`>')
 
 
-def build(place, toppure, n, edges, hollow=None):
+def build(place, toppure, n, edges, hollow=None, verbose=False):
     jobs = [SJob(NAMES[i], i) if i != hollow else SSched(NAMES[i], i)
             for i in range(n)]
+    if verbose:
+        top, holder, jobs, chain = build(place, toppure, n, edges, hollow)
+        for s_ in [top] + chain:
+            s_.verbose = True
+        return top, holder, jobs, chain
     for i, j in edges:
         if i == j:
             jobs[j].required.add(jobs[i])
@@ -154,10 +159,12 @@ def check_list(top, all_edges, nested_chain):
     return msgs
 
 
-def _one_graph(place, toppure, n, edges, res, hollow=None):
+def _one_graph(place, toppure, n, edges, res, hollow=None, verbose=False):
     rep = {'kind': 'graph', 'place': place, 'toppure': toppure, 'n': n,
-           'edges': [list(e) for e in edges], 'hollow': hollow}
-    top, holder, jobs, chain = build(place, toppure, n, edges, hollow)
+           'edges': [list(e) for e in edges], 'hollow': hollow,
+           'verbose': verbose}
+    top, holder, jobs, chain = build(place, toppure, n, edges, hollow,
+                                     verbose)
     if hollow is not None:
         chain = chain + [jobs[hollow]]
     named = {(NAMES[i], NAMES[j]) for i, j in edges}
@@ -199,13 +206,17 @@ def _one_graph(place, toppure, n, edges, res, hollow=None):
                           "(i,j: j requires i) %s, top=%s%s"
                           % (m, place, n, sorted(edges),
                              'PureScheduler' if toppure else 'Scheduler',
-                             '' if hollow is None else
-                             ', node %s is an empty nested Scheduler'
-                             % NAMES[hollow]), rep)
+                             ('' if hollow is None else
+                              ', node %s is an empty nested Scheduler'
+                              % NAMES[hollow])
+                             + (', verbose schedulers' if verbose else '')),
+                          rep)
 
 
-def one_graph(place, toppure, n, edges, res, hollow=None):
-    _, hang = seq.guarded(_one_graph, place, toppure, n, edges, res, hollow)
+def one_graph(place, toppure, n, edges, res, hollow=None, verbose=False):
+    with seq.captured():
+        _, hang = seq.guarded(_one_graph, place, toppure, n, edges, res,
+                              hollow, verbose)
     if hang:
         seq.add_violation(res, 'c15:hang', "%s | %s graph on %d nodes, edges "
                           "(i,j: j requires i) %s, top=%s"
@@ -315,6 +326,9 @@ def run_item(item):
         if res.get('abort'):
             break
         one_graph(item['place'], item['toppure'], item['n'], edges, res)
+        if item['n'] <= 3:
+            one_graph(item['place'], item['toppure'], item['n'], edges, res,
+                      verbose=True)
         if item['n'] <= 3 and not item['loops']:
             for h in range(item['n']):
                 one_graph(item['place'], item['toppure'], item['n'], edges,
@@ -359,7 +373,8 @@ def replay(rep):
         _, _, _, msgs = apply_history(rep['n'], hist)
         return sorted(msgs)
     one_graph(rep['place'], rep['toppure'], rep['n'],
-              [tuple(e) for e in rep['edges']], res, rep.get('hollow'))
+              [tuple(e) for e in rep['edges']], res, rep.get('hollow'),
+              rep.get('verbose', False))
     return sorted(v['msg'] for v in res['violations'])
 
 
